@@ -73,6 +73,9 @@ class Interp:
                 return self.env[d]
             if d in ("True", "False", "None"):
                 return {"True": True, "False": False, "None": None}[d]
+            if isinstance(n, ast.Attribute) and n.attr in ("real", "imag"):
+                base = self.ev(n.value)
+                return getattr(base, n.attr) if isinstance(base, (int, float, complex)) else base
             raise Unsupported("unbound %s" % d)
         if isinstance(n, ast.Subscript):
             # element-wise view: x[...] of a scalar stand-in is the scalar
